@@ -15,6 +15,7 @@ def run():
     b = Bounded(PROP, 'harness.c04')
     driver.run(b)
     n = driver.max_lines(b.tier)
+    nt = driver.term_full_lines(b.tier)
     nb, ns = len(driver.SHAPES_BASE), len(driver.ALL_SHAPES)
     cov = b.coverage(
         rule=f"every text of 0..{n} lines, each line one of {nb} line shapes (blank, blanks only, un-indented, "
@@ -26,7 +27,12 @@ def run():
              f"{ns} shapes (the former + span opener/closer on the same line, opener behind a token, closer before a "
              f"token, closer / opener in column 1) for the configuration with one span matcher; every text given as "
              f"one str and as a list of lines (the 0-line text only as the empty list, '' being the one-blank-line "
-             f"text); per case: _Tokenizer.tokenize output and LLParser.parse trees (raw and cleaned; a fixed "
+             f"text); in addition every such text of 1..{nt} lines, and every text of {nt + 1}..{n} lines over the "
+             f"reduced alphabet (blank, un-indented, indented, trailing blanks, illegal character in column 1; span "
+             f"configuration: + the span shapes), given as a tuple of lines and as a sequence of lines whose items "
+             f"still end with their line terminator as readlines() returns them (list with '\\n' on every line / on "
+             f"every line but the last, tuple with '\\n', list with '\\r\\n'): the terminator is the last blank "
+             f"character of its line, item k of the sequence is line k; per case: _Tokenizer.tokenize output and LLParser.parse trees (raw and cleaned; a fixed "
              f"grammar with nullable leaves, a nullable inner node, one to three consecutive trailing children that "
              f"may match nothing (followed by skipped blanks / line break / comment) and a factorized production, and a "
              f"second grammar of the same language whose alternatives share a common prefix - of one terminal, of "
@@ -39,7 +45,7 @@ def run():
              f"scanner of the same token language. non-trivial = the text has >= 2 lines or holds a span token",
         exhaustive=True,
         extra={'space_size': driver.space_size(b.tier), 'shapes': driver.ALL_SHAPES,
-               'configurations': driver.CFG_ORDER})
+               'configurations': driver.CFG_ORDER, 'modes': driver.MODES + driver.TERM_ORDER})
     cov.update(ppart)
     _seen, _viol = set(), []
     for _v in pv + b.violations():
@@ -48,7 +54,12 @@ def run():
             _viol.append(_v)
     return finish(PROP, 'exploration', _viol, pu, pe + b.errors, cov, passumed +
                   ["token patterns of the explored configurations match non-empty text only",
-                   "lines of a list-of-lines text carry no line terminator (as get_orig_text joins them with one)",
+                   "items of a sequence of lines that still end with their line terminator ('\\n', '\\r\\n'): the "
+                   "terminator is a character of its line and is matched by the blank pattern (\\s+) of every explored "
+                   "configuration - a configuration whose patterns do not match it is not explored; for a region that "
+                   "runs over several such lines (multi-line span token) get_orig_text may return the lines as given or "
+                   "joined by one more line feed (it joins the lines of every region with one): both are accepted, the "
+                   "second is reported as a supporting diagnostic; positions are demanded exactly",
                    "the text has at least one line (the empty list is explored, failures on it are diagnostics only)",
                    "blanks at the end of a line may or may not be reported as a token (both readings accepted); the "
                    "position of $END$ is only constrained by 'monotone'",
